@@ -295,6 +295,12 @@ pub fn state_pair(c: &DriftCase, w: &World) -> StatePair {
     if c.extras & 8 != 0 {
         files.push(("emptied.py".into(), Some("x = 1\n".into()), Some(String::new()), None));
     }
+    if c.extras & 16 != 0 {
+        files.push(("@x:tools/run.sh".into(), Some("echo hi\n".into()), Some("echo hi\n".into()), None));
+    }
+    if c.extras & 32 != 0 {
+        files.push(("@l:latest.py".into(), Some("f0.py".into()), Some("# <block name=\"lk\">\nx = 1\n# </block>\n".into()), None));
+    }
     if c.deleted_extra_file {
         files.push(("gone.py".into(), Some("# <block name=\"g\">\nx = 1\n# </block>\n".into()), None, None));
     }
@@ -406,6 +412,11 @@ pub fn check(c: &DriftCase, probe: &Probe) -> Verdict {
     probe.class(["git:unstaged", "git:cached", "git:HEAD", "git:commit-to-commit"][c.mode.kind as usize % 4]);
     if fds.iter().any(k1_shape) {
         probe.class("diff-has-shifted-pure-deletion(K1 shape)");
+    }
+    for (needle, class) in [("\nold mode 100644\n", "diff:mode-only-entry"), ("\ndeleted file mode 120000\n", "diff:symlink-replaced-by-file"), ("\n\\ No newline at end of file\n+", "diff:eof-marker-inside-hunk"), ("\nBinary files ", "diff:binary-entry"), ("\nrename from ", "diff:rename")] {
+        if diff.contains(needle) {
+            probe.class(class);
+        }
     }
     if let Some(k) = known_hit {
         probe.class(&format!("known:{k}"));
@@ -574,7 +585,7 @@ pub fn file_strategy() -> BoxedStrategy<DFile> {
 }
 
 pub fn case_strategy() -> BoxedStrategy<DriftCase> {
-    (proptest::collection::vec(file_strategy(), 1..5), gitcase::mode_strategy(), proptest::bool::weighted(0.1), proptest::bool::weighted(0.1), prop_oneof![3 => Just(0u8), 1 => 0u8..16])
+    (proptest::collection::vec(file_strategy(), 1..5), gitcase::mode_strategy(), proptest::bool::weighted(0.1), proptest::bool::weighted(0.1), prop_oneof![3 => Just(0u8), 1 => 0u8..64])
         .prop_map(|(files, mode, hostile, deleted_extra_file, extras)| DriftCase { files, mode, hostile, deleted_extra_file, extras })
         .boxed()
 }
@@ -627,7 +638,7 @@ pub fn small_scope_cases() -> Vec<DriftCase> {
 }
 
 pub fn run(run: &mut Run) {
-    run.rule = "enumerated small scope: every edit script of <= 2 single-line operations at every position of a fixed nine-line Python file with nested, linked blocks under -U0 and -U3 (1 624 cases). random: 1..4 files of random suffixes (root or sub-directories, one with a space), each a balanced list of own-line tag comments (any comment form of the language, 15% multi-line comments, 12% start tags spread over several lines, indentation), blocks named from a pool of 5 (duplicates, unnamed) with affects lists of 1..3 references (same file, other file, missing file, missing name, cycles), 20% of them with severity warning / Info (reported, not failing) and code lines; an edit script of 0..8 operations on new-side lines (add k lines, delete k lines at a gap, replace a line incl. tag lines) from which the old state is derived; file fates modified / renamed / new / untouched / an extra deleted file; in 25% further entries in the same diff (a binary file, an added empty file, a changed file of unknown suffix holding unbalanced tags, a file emptied); hostile removed lines (`-- x`, `--- a/f`, `@@ -1 +1 @@`, …) in 10%; missing trailing newline in 15%; real git in a generated mode (-U0..10, unstaged/--cached/HEAD/commit-to-commit, 4 diff algorithms, -M). Oracle part 1: flag per block from an independent reader of git's diff (must / must-not / unspecified zones), part 2: affects diagnostics = reference model over the listed flags, exit status; part 3: after touching every linked block the run passes. Non-trivial = a file with >= 2 hunks, a must-modified block with affects and a must-not block.".into();
+    run.rule = "enumerated small scope: every edit script of <= 2 single-line operations at every position of a fixed nine-line Python file with nested, linked blocks under -U0 and -U3 (1 624 cases). random: 1..4 files of random suffixes (root or sub-directories, one with a space), each a balanced list of own-line tag comments (any comment form of the language, 15% multi-line comments, 12% start tags spread over several lines, indentation), blocks named from a pool of 5 (duplicates, unnamed) with affects lists of 1..3 references (same file, other file, missing file, missing name, cycles), 20% of them with severity warning / Info (reported, not failing) and code lines; an edit script of 0..8 operations on new-side lines (add k lines, delete k lines at a gap, replace a line incl. tag lines) from which the old state is derived; file fates modified / renamed / new / untouched / an extra deleted file; in 25% further entries in the same diff (a binary file, an added empty file, a changed file of unknown suffix holding unbalanced tags, a file emptied, a mode-only change, a symbolic link replaced by a regular file); hostile removed lines (`-- x`, `--- a/f`, `@@ -1 +1 @@`, …) in 10%; missing trailing newline in 15%; real git in a generated mode (-U0..10, unstaged/--cached/HEAD/commit-to-commit, 4 diff algorithms, -M). Oracle part 1: flag per block from an independent reader of git's diff (must / must-not / unspecified zones), part 2: affects diagnostics = reference model over the listed flags, exit status; part 3: after touching every linked block the run passes. Non-trivial = a file with >= 2 hunks, a must-modified block with affects and a must-not block.".into();
     run.assumptions = vec![
         "file names avoid characters git C-quotes".into(),
         "mixed -/+ groups count through their added lines only (removed lines of a mixed group are not asserted: see K2 in DESIGN.md)".into(),
